@@ -5,7 +5,11 @@ variable payloads, unknown operation names.  All randomness from the rng
 passed in.  The type tables below are written by hand (independent of
 py_gql's schema objects); they are what the null/error cross-check uses."""
 import asyncio
+import collections
+import copy
+import collections.abc
 import math
+import types
 
 from py_gql import build_schema
 from py_gql.exc import ResolverError
@@ -280,10 +284,55 @@ def make_error(act):
     return ERROR_FAMILY[name](args, kwargs)
 
 
-def _log_raise(ctx, info, err):
+def _log_raise(ctx, info, err, expected="read"):
+    """expected extensions of the error rendered for this position: what the raised object exposes at
+    raise time, or -- when the case itself states the mapping's content -- that plain content (so that the
+    expectation does not depend on an object the library or the caller may have touched)"""
     ctx["raised"].append(list(info.path))
-    ext = err.extensions
-    ctx.setdefault("raised_ext", []).append([list(info.path), dict(ext) if ext else None, type(err).__name__])
+    if expected == "read":
+        ext = err.extensions
+        expected = dict(ext) if ext else None
+    ctx.setdefault("raised_ext", []).append([list(info.path), expected or None, type(err).__name__])
+
+
+# ---- extensions handed to ResolverError as Mappings that are not plain dicts
+class OrderedSub(collections.OrderedDict):
+    """an OrderedDict subclass (json.dumps accepts it; it is not plain data)"""
+
+
+class FrozenMap(collections.abc.Mapping):
+    """a custom read-only Mapping"""
+
+    def __init__(self, d):
+        self._d = dict(d)
+
+    def __getitem__(self, k):
+        return self._d[k]
+
+    def __iter__(self):
+        return iter(self._d)
+
+    def __len__(self):
+        return len(self._d)
+
+
+MAPPING_KINDS = ["dict", "ordered", "ordered_sub", "proxy", "chain", "custom"]
+
+
+def make_mapping(kind, d):
+    d = decode_value(d)
+    if kind == "dict":
+        return dict(d)
+    if kind == "ordered":
+        return collections.OrderedDict(d)
+    if kind == "ordered_sub":
+        return OrderedSub(d)
+    if kind == "proxy":
+        return types.MappingProxyType(dict(d))
+    if kind == "chain":
+        items = list(d.items())
+        return collections.ChainMap(dict(items[:1]), dict(items[1:]))
+    return FrozenMap(d)
 
 
 def _non_finite_in(v, out, where):
@@ -307,12 +356,28 @@ def _resolve(sname, ctx, info, args):
         err = make_error(act)
         _log_raise(ctx, info, err)
         raise err
+    if act is not None and act[0] == "raise_map":
+        # ["raise_map", message, extensions content, mapping kind, shared instance?]
+        _k, msg, content, kind, shared = act
+        if shared:
+            k = repr(("map", msg, content, kind))
+            if k not in _SHARED:
+                m = make_mapping(kind, content)
+                _SHARED[k] = ResolverError(msg, extensions=m)
+            err = _SHARED[k]
+        else:
+            err = ResolverError(msg, extensions=make_mapping(kind, content))
+        ctx.setdefault("mappings", []).append(err.extensions)
+        _log_raise(ctx, info, err, expected=dict(make_mapping("dict", content)))
+        raise err
     if act is not None and act[0] == "raise_shared":
         # one exception instance per (message, extensions), reused by every field and request
         k = repr((act[1], act[2]))
         if k not in _SHARED:
-            _SHARED[k] = ResolverError(act[1], extensions=act[2]) if act[2] is not None else ResolverError(act[1])
-        _log_raise(ctx, info, _SHARED[k])
+            # (the instance gets its own copy: the case's data stays what the expectation is read from)
+            _SHARED[k] = (ResolverError(act[1], extensions=copy.deepcopy(act[2])) if act[2] is not None
+                          else ResolverError(act[1]))
+        _log_raise(ctx, info, _SHARED[k], expected=copy.deepcopy(act[2]))
         raise _SHARED[k]
     if act is not None and act[0] == "raise":
         err = ResolverError(act[1], extensions=act[2]) if act[2] is not None else ResolverError(act[1])
@@ -502,6 +567,9 @@ def gen_world(rng, paths, nfail):
                    else rng.choice(["   ", "", " ok "])]
         elif r < 0.08:
             act = ["raise_shared", rng.choice(["not found", "denied"]), rng.choice([None, {"code": 404}])]
+        elif r < 0.16:
+            act = ["raise_map", "mapped", rng.choice([{"code": 1}, {"a": 1, "b": [1, {"c": None}], "z": "t"}]),
+                   rng.choice(MAPPING_KINDS), rng.random() < 0.3]
         elif r < 0.3:
             smp = rng.choice(ERROR_SAMPLES)
             act = ["raise_cls", smp[0], smp[1], smp[2], rng.random() < 0.3]
@@ -726,6 +794,19 @@ MULTI_NODE_INVALID = [
     ("A", "{ ...A ...A }\nfragment A on Query { ...B }\nfragment B on Query { ...A a }", {}),
     ("A", "{ a a @skip(if: true) }\nfragment U on Query { a }\nfragment V on Query { s }", {}),
 ]
+
+MAP_CONTENT = {"code": "E42", "retry": True, "detail": {"after": 1.5, "tags": ["a", None]}}
+
+
+def _mapping_corpus():
+    out = []
+    for kind in MAPPING_KINDS:
+        act = ["raise_map", "mapped " + kind, MAP_CONTENT, kind, False]
+        out.append(("A", "{ a o { a s } lo { id a } }", {"a": act, "o/s": act, "lo/1/a": act}))
+    return out
+
+
+MAPPING_CORPUS = _mapping_corpus()
 
 CUSTOM_SCALAR_CORPUS = [
     # a serializer returning None for a non-null value: null at T!, [T!], [T!]! and nested, one error each
